@@ -1,5 +1,13 @@
 /-
   Lemmas/C18.lean — specification-side definitions and helper lemmas for C18.
+
+  The containment argument (Props/C18.lean: `extract_never_escapes`) rests on four facts proved here:
+    K2  `kresolve_realpath`    where the kernel's walk succeeds, Python's lexical `realpath` gives the same path;
+    R2  `realpath_after_kresolve`  a `realpath` over `cs ++ rest` whose prefix `cs` the kernel resolves to `p` continues from `p`;
+    LEX `realpath_lexical`     below a path that does not exist (in a tree where nothing exists below a missing path),
+                               `realpath` of `..`-free components is purely lexical;
+    R3  `realpath_congr`       `realpath` depends on the tree only through its symbolic links (making directories does not
+                               change it).
 -/
 import Kapture.Model.C18
 
@@ -11,10 +19,10 @@ def LinkFree (fs : FS) : Prop := ∀ e ∈ fs, ∀ t, e.2 ≠ Node.link t
 /-- a plain relative name: no empty / "." / ".." component, not absolute -/
 def PlainName (s : String) : Prop := ∀ c ∈ split s, c ≠ "" ∧ c ≠ "." ∧ c ≠ ".."
 
-/-- every node of the result is either a node of the input or lies at a path relative to dest (the model only HAS paths
-  below dest; the theorems below say the model never needs any other: no member is accepted whose resolved location is
-  not under dest) -/
 def Inside (dest target : Path) : Prop := isPrefix dest target = true
+
+/-- nothing exists below a path that does not exist (true of every real tree) -/
+def Closed (fs : FS) : Prop := ∀ p q, lookup fs p = none → lookup fs (p ++ q) = none
 
 theorem lookup_not_link (fs : FS) (h : LinkFree fs) (p : Path) (t : String) : lookup fs p ≠ some (Node.link t) := by
   unfold lookup
@@ -25,10 +33,1314 @@ theorem lookup_not_link (fs : FS) (h : LinkFree fs) (p : Path) (t : String) : lo
     obtain ⟨e, he, h2⟩ := heq
     exact h e (List.mem_of_find?_eq_some he) t h2
 
+/-! ### prefixes -/
 
-/-- inversion of the filter guards at the top of `extractMember` -/
+theorem isPrefix_iff {a b : Path} : isPrefix a b = true ↔ ∃ x, b = a ++ x := by
+  unfold isPrefix
+  constructor
+  · intro h
+    simp only [Bool.and_eq_true, decide_eq_true_eq, beq_iff_eq] at h
+    refine ⟨b.drop a.length, ?_⟩
+    have := (List.take_append_drop a.length b).symm
+    rw [h.2] at this
+    exact this
+  · rintro ⟨x, rfl⟩
+    simp
+
+theorem isPrefix_append (a b : Path) : isPrefix a (a ++ b) = true := isPrefix_iff.mpr ⟨b, rfl⟩
+
+theorem isPrefix_refl (a : Path) : isPrefix a a = true := isPrefix_iff.mpr ⟨[], by simp⟩
+
+theorem isPrefix_nil (a : Path) : isPrefix [] a = true := isPrefix_iff.mpr ⟨a, by simp⟩
+
+theorem isPrefix_length {a b : Path} (h : isPrefix a b = true) : a.length ≤ b.length := by
+  obtain ⟨x, rfl⟩ := isPrefix_iff.mp h
+  simp
+
+theorem isPrefix_trans {a b c : Path} (h1 : isPrefix a b = true) (h2 : isPrefix b c = true) : isPrefix a c = true := by
+  obtain ⟨x, rfl⟩ := isPrefix_iff.mp h1
+  obtain ⟨y, rfl⟩ := isPrefix_iff.mp h2
+  exact isPrefix_iff.mpr ⟨x ++ y, by simp⟩
+
+theorem isPrefix_antisymm {a b : Path} (h1 : isPrefix a b = true) (h2 : isPrefix b a = true) : a = b := by
+  obtain ⟨x, rfl⟩ := isPrefix_iff.mp h1
+  have := isPrefix_length h2
+  simp only [List.length_append] at this
+  have hx : x = [] := List.eq_nil_of_length_eq_zero (by omega)
+  simp [hx]
+
+/-- two prefixes of one path are comparable -/
+theorem isPrefix_comparable {a b c : Path} (h1 : isPrefix a c = true) (h2 : isPrefix b c = true) :
+    isPrefix a b = true ∨ isPrefix b a = true := by
+  obtain ⟨x, hx⟩ := isPrefix_iff.mp h1
+  obtain ⟨y, hy⟩ := isPrefix_iff.mp h2
+  rw [hx] at hy
+  rcases List.append_eq_append_iff.mp hy with ⟨z, hz, _⟩ | ⟨z, hz, _⟩
+  · exact Or.inl (isPrefix_iff.mpr ⟨z, hz⟩)
+  · exact Or.inr (isPrefix_iff.mpr ⟨z, hz⟩)
+
+theorem isPrefix_dropLast {a b : Path} (h : isPrefix a b = true) (hne : a ≠ b) : isPrefix a b.dropLast = true := by
+  obtain ⟨x, rfl⟩ := isPrefix_iff.mp h
+  have hx : x ≠ [] := by intro e; apply hne; simp [e]
+  rw [List.dropLast_append_of_ne_nil hx]
+  exact isPrefix_append _ _
+
+theorem dropLast_isPrefix {a b : Path} (h : isPrefix a b = true) : isPrefix a.dropLast b = true := by
+  obtain ⟨x, rfl⟩ := isPrefix_iff.mp h
+  rcases List.eq_nil_or_concat a with rfl | ⟨l, c, rfl⟩
+  · simp [isPrefix_nil]
+  · rw [List.concat_eq_append, List.dropLast_concat]
+    exact isPrefix_iff.mpr ⟨c :: x, by simp⟩
+
+/-- `p` is dest, below dest, or an ancestor of dest: the part of the world the model knows -/
+def known (dest p : Path) : Prop := isPrefix dest p = true ∨ isPrefix p dest = true
+
+theorem known_dropLast {dest p : Path} (h : known dest p) : known dest p.dropLast := by
+  rcases h with h | h
+  · by_cases e : dest = p
+    · subst e; exact Or.inr (dropLast_isPrefix (isPrefix_refl _))
+    · exact Or.inl (isPrefix_dropLast h e)
+  · exact Or.inr (dropLast_isPrefix h)
+
+theorem known_nil (dest : Path) : known dest [] := Or.inr (isPrefix_nil _)
+
+theorem known_self (dest : Path) : known dest dest := Or.inl (isPrefix_refl _)
+
+/-! ### the tree as a finite map -/
+
+theorem rel_append (dest x : Path) : rel dest (dest ++ x) = x := by simp [rel]
+
+theorem lookup_nil (fs : FS) : lookup fs [] = some Node.dir := by simp [lookup]
+
+theorem lookup_setNode_self (fs : FS) (p : Path) (n : Node) (hp : p ≠ []) : lookup (setNode fs p n) p = some n := by
+  have hpe : p.isEmpty = false := by cases p <;> simp_all
+  unfold lookup setNode
+  rw [hpe]
+  simp only [Bool.false_eq_true, if_false]
+  split
+  · rename_i hany
+    induction fs with
+    | nil => simp at hany
+    | cons e fs ih =>
+      simp only [List.map_cons, List.find?_cons]
+      by_cases he : e.1 == p
+      · simp [he]
+      · simp only [he, Bool.false_eq_true, if_false]
+        simp only [List.any_cons, he, Bool.false_or] at hany
+        exact ih hany
+  · rename_i hany
+    have hnone : fs.find? (fun e => e.1 == p) = none := by
+      rw [List.find?_eq_none]
+      intro e he hh
+      exact hany (List.any_eq_true.mpr ⟨e, he, hh⟩)
+    simp [List.find?_append, hnone]
+
+theorem find_map_replace_ne (fs : FS) (p q : Path) (n : Node) (hpq : (p == q) = false) :
+    (fs.map (fun e => if e.1 == p then (p, n) else e)).find? (fun e => e.1 == q) = fs.find? (fun e => e.1 == q) := by
+  induction fs with
+  | nil => rfl
+  | cons e fs ih =>
+    simp only [List.map_cons, List.find?_cons]
+    by_cases he : e.1 == p
+    · have e1 : e.1 = p := by simpa using he
+      have h2 : (e.1 == q) = false := by rw [e1]; exact hpq
+      rw [if_pos he]
+      simp only [hpq, h2]
+      exact ih
+    · rw [if_neg he]
+      by_cases h2 : e.1 == q
+      · simp [h2]
+      · simp only [h2]
+        exact ih
+
+theorem lookup_setNode_ne (fs : FS) (p q : Path) (n : Node) (hq : q ≠ p) : lookup (setNode fs p n) q = lookup fs q := by
+  have hpq : (p == q) = false := by simpa using fun e => hq e.symm
+  unfold lookup
+  split
+  · rfl
+  · congr 1
+    unfold setNode
+    split
+    · exact find_map_replace_ne fs p q n hpq
+    · simp [List.find?_append, hpq]
+
+/-! ### `realpath`: fuel and determinism -/
+
+theorem realpath_mono (dest : Path) (fs : FS) : ∀ (n : Nat) (cur : Path) (cs : List String) (p : Path),
+    realpath dest fs n cur cs = some p → realpath dest fs (n + 1) cur cs = some p := by
+  intro n
+  induction n with
+  | zero => intro cur cs p h; simp [realpath] at h
+  | succ n ih =>
+    intro cur cs p h
+    cases cs with
+    | nil => simpa [realpath] using h
+    | cons c rest =>
+      rw [realpath.eq_3] at h ⊢
+      dsimp only at h ⊢
+      split
+      · rename_i hc; rw [if_pos hc] at h; exact ih _ _ _ h
+      · rename_i hc; rw [if_neg hc] at h
+        split
+        · rename_i hd; rw [if_pos hd] at h; exact ih _ _ _ h
+        · rename_i hd; rw [if_neg hd] at h
+          split
+          · rename_i t hnode
+            rw [hnode] at h
+            dsimp only at h
+            split
+            · rename_i ht; rw [if_pos ht] at h; exact ih _ _ _ h
+            · rename_i ht; rw [if_neg ht] at h; exact ih _ _ _ h
+          · rename_i hnode
+            split at h
+            · rename_i t' hnode'
+              exact absurd hnode' (hnode t')
+            · exact ih _ _ _ h
+
+theorem realpath_mono_le (dest : Path) (fs : FS) {n m : Nat} (hnm : n ≤ m) {cur : Path} {cs : List String} {p : Path}
+    (h : realpath dest fs n cur cs = some p) : realpath dest fs m cur cs = some p := by
+  induction hnm with
+  | refl => exact h
+  | step _ ih => exact realpath_mono dest fs _ _ _ _ ih
+
+/-- with whatever fuel it succeeds, `realpath` gives one answer -/
+theorem realpath_det (dest : Path) (fs : FS) {n m : Nat} {cur : Path} {cs : List String} {a b : Path}
+    (h1 : realpath dest fs n cur cs = some a) (h2 : realpath dest fs m cur cs = some b) : a = b := by
+  have e1 := realpath_mono_le dest fs (Nat.le_max_left n m) h1
+  have e2 := realpath_mono_le dest fs (Nat.le_max_right n m) h2
+  rw [e1] at e2
+  exact Option.some.inj e2
+
+/-- the node `realpath` looks at -/
+def nodeAt (dest : Path) (fs : FS) (p : Path) : Option Node := if isPrefix dest p then lookup fs (p.drop dest.length) else none
+
+/-- R3: `realpath` depends on the tree only through its symbolic links -/
+theorem realpath_congr (dest : Path) (fs1 fs2 : FS)
+    (hl : ∀ p t, nodeAt dest fs1 p = some (Node.link t) ↔ nodeAt dest fs2 p = some (Node.link t)) :
+    ∀ (n : Nat) (cur : Path) (cs : List String), realpath dest fs1 n cur cs = realpath dest fs2 n cur cs := by
+  intro n
+  induction n with
+  | zero => intro cur cs; simp [realpath]
+  | succ n ih =>
+    intro cur cs
+    cases cs with
+    | nil => simp [realpath]
+    | cons c rest =>
+      rw [realpath.eq_3, realpath.eq_3]
+      dsimp only
+      split
+      · exact ih _ _
+      · split
+        · exact ih _ _
+        · have h1 := hl (cur ++ [c])
+          unfold nodeAt at h1
+          split
+          · rename_i t hnode
+            have := (h1 t).mp hnode
+            rw [this]
+            dsimp only
+            split <;> exact ih _ _
+          · rename_i hnode
+            split
+            · rename_i t' hnode'
+              exact absurd ((h1 t').mpr hnode') (hnode t')
+            · exact ih _ _
+
+/-- LEX: where no symbolic link stands below `base`, `realpath` of `..`-free components is purely lexical -/
+theorem realpath_lexical (dest : Path) (fs : FS) : ∀ (n : Nat) (base : Path) (cs : List String) (t : Path),
+    (∀ x, x ≠ [] → ∀ l, nodeAt dest fs (base ++ x) ≠ some (Node.link l)) → ".." ∉ cs →
+    realpath dest fs n base cs = some t → t = base ++ cs.filter (fun c => !(c == "" || c == ".")) := by
+  intro n
+  induction n with
+  | zero => intro base cs t _ _ h; simp [realpath] at h
+  | succ n ih =>
+    intro base cs t H hdd h
+    cases cs with
+    | nil => simp [realpath] at h; simp [h]
+    | cons c rest =>
+      have hdd' : ".." ∉ rest := fun hm => hdd (List.mem_cons_of_mem _ hm)
+      have hc : c ≠ ".." := fun e => hdd (by simp [e])
+      rw [realpath.eq_3] at h
+      dsimp only at h
+      split at h
+      · rename_i htriv
+        rw [List.filter_cons]
+        simp only [htriv, Bool.not_true, Bool.false_eq_true, if_false]
+        exact ih _ _ _ H hdd' h
+      · rename_i htriv
+        have hcd : (c == "..") = false := by simpa using hc
+        rw [if_neg (by simp [hcd])] at h
+        have htf : (c == "" || c == ".") = false := by simpa using htriv
+        rw [List.filter_cons]
+        simp only [htf, Bool.not_false, if_true]
+        have hn := H [c] (by simp)
+        unfold nodeAt at hn
+        split at h
+        · rename_i l hnode
+          exact absurd hnode (hn l)
+        · have := ih (base ++ [c]) rest t (fun x hx l => by
+            rw [List.append_assoc]; exact H ([c] ++ x) (by simp) l) hdd' h
+          rw [this]; simp
+
+/-! ### the kernel's walk against `realpath` -/
+
+/-- K1: the kernel's walk only ever reaches dest, places below dest, or ancestors of dest -/
+theorem kresolve_known (dest : Path) (fs : FS) : ∀ (n : Nat) (cur : Path) (cs : List String) (p : Path),
+    known dest cur → kresolve dest fs n cur cs = some p → known dest p := by
+  intro n
+  induction n with
+  | zero => intro cur cs p _ h; simp [kresolve] at h
+  | succ n ih =>
+    intro cur cs p hk h
+    cases cs with
+    | nil => simp [kresolve] at h; rw [← h]; exact hk
+    | cons c rest =>
+      rw [kresolve.eq_3] at h
+      dsimp only at h
+      split at h
+      · exact ih _ _ _ hk h
+      · split at h
+        · exact ih _ _ _ (known_dropLast hk) h
+        · split at h
+          · rename_i hout
+            split at h
+            · rename_i hanc
+              exact ih _ _ _ (Or.inr hanc) h
+            · cases h
+          · rename_i hin
+            have hin' : isPrefix dest (cur ++ [c]) = true := by simpa using hin
+            split at h
+            · cases h
+            · split at h
+              · exact ih _ _ _ (known_nil dest) h
+              · exact ih _ _ _ hk h
+            · exact ih _ _ _ (Or.inl hin') h
+            · split at h
+              · exact ih _ _ _ (Or.inl hin') h
+              · cases h
+
+/-- K2: where the kernel's walk succeeds, the lexical `realpath` gives the same path (with the same fuel) -/
+theorem kresolve_realpath (dest : Path) (fs : FS) : ∀ (n : Nat) (cur : Path) (cs : List String) (p : Path),
+    kresolve dest fs n cur cs = some p → realpath dest fs n cur cs = some p := by
+  intro n
+  induction n with
+  | zero => intro cur cs p h; simp [kresolve] at h
+  | succ n ih =>
+    intro cur cs p h
+    cases cs with
+    | nil => simpa [kresolve, realpath] using h
+    | cons c rest =>
+      rw [kresolve.eq_3] at h
+      rw [realpath.eq_3]
+      dsimp only at h ⊢
+      split
+      · rename_i hc; rw [if_pos hc] at h; exact ih _ _ _ h
+      · rename_i hc; rw [if_neg hc] at h
+        split
+        · rename_i hd; rw [if_pos hd] at h; exact ih _ _ _ h
+        · rename_i hd; rw [if_neg hd] at h
+          split at h
+          · rename_i hout
+            have hout' : isPrefix dest (cur ++ [c]) = false := by simpa using hout
+            split at h
+            · rw [hout']
+              simp only [Bool.false_eq_true, if_false]
+              exact ih _ _ _ h
+            · cases h
+          · rename_i hin
+            have hin' : isPrefix dest (cur ++ [c]) = true := by simpa using hin
+            rw [hin']
+            simp only [if_true]
+            split at h
+            · cases h
+            · rename_i t hl
+              rw [hl]
+              dsimp only
+              split
+              · rename_i ht; rw [if_pos ht] at h; exact ih _ _ _ h
+              · rename_i ht; rw [if_neg ht] at h; exact ih _ _ _ h
+            · rename_i hl
+              rw [hl]
+              exact ih _ _ _ h
+            · rename_i hl
+              rw [hl]
+              split at h
+              · exact ih _ _ _ h
+              · cases h
+
+/-- R2: a `realpath` over `cs ++ rest` whose prefix `cs` the kernel resolves to `p` continues from `p`; `k` is the fuel the
+  prefix consumes -/
+theorem realpath_after_kresolve (dest : Path) (fs : FS) : ∀ (n : Nat) (cur : Path) (cs : List String) (p : Path),
+    kresolve dest fs n cur cs = some p →
+    ∃ k, ∀ j rest, realpath dest fs (k + j) cur (cs ++ rest) = realpath dest fs j p rest := by
+  intro n
+  induction n with
+  | zero => intro cur cs p h; simp [kresolve] at h
+  | succ n ih =>
+    intro cur cs p h
+    cases cs with
+    | nil =>
+      simp [kresolve] at h
+      exact ⟨0, fun j rest => by simp [h]⟩
+    | cons c rest0 =>
+      rw [kresolve.eq_3] at h
+      dsimp only at h
+      -- every branch: one step of both walks, then the induction hypothesis
+      have step : ∀ (cur' : Path) (cs' : List String), kresolve dest fs n cur' cs' = some p →
+          (∀ j rest, realpath dest fs (j + 1) cur (c :: rest0 ++ rest) = realpath dest fs j cur' (cs' ++ rest)) →
+          ∃ k, ∀ j rest, realpath dest fs (k + j) cur (c :: rest0 ++ rest) = realpath dest fs j p rest := by
+        intro cur' cs' hk hstep
+        obtain ⟨k, hk'⟩ := ih cur' cs' p hk
+        refine ⟨k + 1, fun j rest => ?_⟩
+        have : k + 1 + j = (k + j) + 1 := by omega
+        rw [this, hstep, hk']
+      split at h
+      · rename_i hc
+        refine step cur rest0 h (fun j rest => ?_)
+        rw [List.cons_append, realpath.eq_3]; dsimp only; rw [if_pos hc]
+      · rename_i hc
+        split at h
+        · rename_i hd
+          refine step cur.dropLast rest0 h (fun j rest => ?_)
+          rw [List.cons_append, realpath.eq_3]; dsimp only; rw [if_neg hc, if_pos hd]
+        · rename_i hd
+          split at h
+          · rename_i hout
+            have hout' : isPrefix dest (cur ++ [c]) = false := by simpa using hout
+            split at h
+            · refine step (cur ++ [c]) rest0 h (fun j rest => ?_)
+              rw [List.cons_append, realpath.eq_3]; dsimp only; rw [if_neg hc, if_neg hd, hout']
+              simp
+            · cases h
+          · rename_i hin
+            have hin' : isPrefix dest (cur ++ [c]) = true := by simpa using hin
+            split at h
+            · cases h
+            · rename_i t hl
+              split at h
+              · rename_i ht
+                refine step [] (split t ++ rest0) h (fun j rest => ?_)
+                rw [List.cons_append, realpath.eq_3]; dsimp only; rw [if_neg hc, if_neg hd, hin']
+                simp only [if_true, hl, ht, List.append_assoc]
+              · rename_i ht
+                refine step cur (split t ++ rest0) h (fun j rest => ?_)
+                rw [List.cons_append, realpath.eq_3]; dsimp only; rw [if_neg hc, if_neg hd, hin']
+                simp only [if_true, hl, ht, List.append_assoc]
+                simp
+            · rename_i hl
+              refine step (cur ++ [c]) rest0 h (fun j rest => ?_)
+              rw [List.cons_append, realpath.eq_3]; dsimp only; rw [if_neg hc, if_neg hd, hin']
+              simp only [if_true, hl]
+            · rename_i hl
+              split at h
+              · refine step (cur ++ [c]) rest0 h (fun j rest => ?_)
+                rw [List.cons_append, realpath.eq_3]; dsimp only; rw [if_neg hc, if_neg hd, hin']
+                simp only [if_true, hl]
+              · cases h
+
+/-- LEX, progress form: with one unit of fuel per component (and one to finish) the lexical walk succeeds -/
+theorem realpath_lexical_some (dest : Path) (fs : FS) : ∀ (cs : List String) (base : Path),
+    (∀ x, x ≠ [] → ∀ l, nodeAt dest fs (base ++ x) ≠ some (Node.link l)) → ".." ∉ cs →
+    realpath dest fs (cs.length + 1) base cs = some (base ++ cs.filter (fun c => !(c == "" || c == "."))) := by
+  intro cs
+  induction cs with
+  | nil => intro base _ _; simp [realpath]
+  | cons c rest ih =>
+    intro base H hdd
+    have hdd' : ".." ∉ rest := fun hm => hdd (List.mem_cons_of_mem _ hm)
+    have hc : c ≠ ".." := fun e => hdd (by simp [e])
+    rw [List.length_cons, realpath.eq_3]
+    dsimp only
+    split
+    · rename_i htriv
+      rw [List.filter_cons]
+      simp only [htriv, Bool.not_true, Bool.false_eq_true, if_false]
+      exact ih base H hdd'
+    · rename_i htriv
+      have hcd : (c == "..") = false := by simpa using hc
+      have htf : (c == "" || c == ".") = false := by simpa using htriv
+      rw [if_neg (by simp [hcd]), List.filter_cons]
+      simp only [htf, Bool.not_false, if_true]
+      have hn := H [c] (by simp)
+      unfold nodeAt at hn
+      split
+      · rename_i l hnode
+        exact absurd hnode (hn l)
+      · have := ih (base ++ [c]) (fun x hx l => by
+          rw [List.append_assoc]; exact H ([c] ++ x) (by simp) l) hdd'
+        rw [this]; simp
+
+/-! ### what stands at an absolute path -/
+
+theorem existsAbs_dest (dest : Path) (fs : FS) : existsAbs dest fs dest = some Node.dir := by
+  simp [existsAbs, isPrefix_refl, rel, lookup]
+
+theorem existsAbs_outside {dest : Path} {fs : FS} {p : Path} {n : Node} (h : existsAbs dest fs p = some n)
+    (hp : isPrefix dest p = false) : n = Node.dir ∧ isPrefix p dest = true := by
+  unfold existsAbs at h
+  rw [hp] at h
+  simp only [Bool.false_eq_true, if_false] at h
+  split at h
+  · rename_i ha; exact ⟨(Option.some.inj h).symm, ha⟩
+  · cases h
+
+theorem existsAbs_known {dest : Path} {fs : FS} {p : Path} {n : Node} (h : existsAbs dest fs p = some n) : known dest p := by
+  by_cases hp : isPrefix dest p = true
+  · exact Or.inl hp
+  · exact Or.inr (existsAbs_outside h (by simpa using hp)).2
+
+/-- an existing entry that is not a directory lies strictly below dest (outside, only the ancestors of dest exist) -/
+theorem nondir_strictInside {dest : Path} {fs : FS} {p : Path} {n : Node} (h : existsAbs dest fs p = some n) (hn : n ≠ Node.dir) :
+    strictInside dest p = true := by
+  by_cases hp : isPrefix dest p = true
+  · have hne : dest ≠ p := by
+      intro e; subst e
+      rw [existsAbs_dest] at h
+      exact hn (Option.some.inj h).symm
+    have hl := isPrefix_length hp
+    have : dest.length ≠ p.length := by
+      intro e
+      obtain ⟨x, rfl⟩ := isPrefix_iff.mp hp
+      simp only [List.length_append] at e
+      have : x = [] := List.eq_nil_of_length_eq_zero (by omega)
+      exact hne (by simp [this])
+    simp [strictInside, hp]; omega
+  · exact absurd (existsAbs_outside h (by simpa using hp)).1 hn
+
+theorem nodeAt_of_existsAbs_none {dest : Path} {fs : FS} {p : Path} (h : existsAbs dest fs p = none) : nodeAt dest fs p = none := by
+  unfold existsAbs at h
+  unfold nodeAt
+  split
+  · rename_i hp; rw [if_pos hp] at h; exact h
+  · rfl
+
+theorem nodeAt_link_iff {dest : Path} {fs : FS} {p : Path} {t : String} :
+    nodeAt dest fs p = some (Node.link t) ↔ existsAbs dest fs p = some (Node.link t) := by
+  unfold existsAbs nodeAt rel
+  split
+  · rfl
+  · constructor
+    · intro h; cases h
+    · intro h; split at h <;> cases h
+
+/-- one step of `realpath` over a last component that is a real name -/
+theorem realpath_last_plain (dest : Path) (fs : FS) (p : Path) (last : String)
+    (h1 : (last == "" || last == ".") = false) (h2 : (last == "..") = false)
+    (hn : ∀ t, nodeAt dest fs (p ++ [last]) ≠ some (Node.link t)) :
+    realpath dest fs 2 p [last] = some (p ++ [last]) := by
+  rw [realpath.eq_3]
+  dsimp only
+  rw [if_neg (by simp [h1]), if_neg (by simp [h2])]
+  unfold nodeAt at hn
+  split
+  · rename_i t hnode; exact absurd hnode (hn t)
+  · simp [realpath]
+
+theorem realpath_last_link (dest : Path) (fs : FS) (p : Path) (last t : String) (j : Nat)
+    (h1 : (last == "" || last == ".") = false) (h2 : (last == "..") = false)
+    (hn : nodeAt dest fs (p ++ [last]) = some (Node.link t)) :
+    realpath dest fs (j + 1) p [last] = realpath dest fs j (if t.startsWith "/" then [] else p) (split t) := by
+  rw [realpath.eq_3]
+  dsimp only
+  rw [if_neg (by simp [h1]), if_neg (by simp [h2])]
+  unfold nodeAt at hn
+  rw [hn]
+  dsimp only
+  split <;> simp
+
+theorem dropLast_getLast {cs : List String} (h : cs ≠ []) : cs = cs.dropLast ++ [cs.getLast?.getD ""] := by
+  rw [List.getLast?_eq_some_getLast h]
+  exact (List.dropLast_concat_getLast h).symm
+
+/-- KO: where `open(.., O_CREAT)` lands is what `realpath` computes, and nothing but a regular file (or nothing) is there -/
+theorem kopen_realpath (dest : Path) (fs : FS) : ∀ (n : Nat) (cur : Path) (cs : List String) (q : Path),
+    kopen dest fs n cur cs = Except.ok q →
+    (∃ m, realpath dest fs m cur cs = some q) ∧
+    (existsAbs dest fs q = none ∨ ∃ c, existsAbs dest fs q = some (Node.file c)) := by
+  intro n
+  induction n with
+  | zero => intro cur cs q h; simp [kopen] at h
+  | succ n ih =>
+    intro cur cs q h
+    rw [kopen.eq_2] at h
+    dsimp only at h
+    split at h
+    · cases h
+    · rename_i p hp
+      split at h
+      · cases h
+      · split at h
+        · cases h
+        · rename_i hlast
+          have hne : cs ≠ [] := by
+            intro e; subst e; simp at hlast
+          have hcs := dropLast_getLast hne
+          generalize cs.getLast?.getD "" = last at hlast hcs h
+          generalize cs.dropLast = dl at hp hcs
+          subst hcs
+          have h1 : (last == "" || last == ".") = false := by
+            simp only [Bool.or_eq_true, not_or] at hlast
+            simp [hlast.1.1, hlast.1.2]
+          have h2 : (last == "..") = false := by
+            simp only [Bool.or_eq_true, not_or] at hlast
+            simpa using hlast.2
+          obtain ⟨k, hk⟩ := realpath_after_kresolve dest fs FUEL cur dl p hp
+          split at h
+          · rename_i hex
+            cases h
+            refine ⟨⟨k + 2, ?_⟩, Or.inl hex⟩
+            rw [hk]
+            exact realpath_last_plain dest fs p last h1 h2 (by rw [nodeAt_of_existsAbs_none hex]; simp)
+          · rename_i c hex
+            cases h
+            refine ⟨⟨k + 2, ?_⟩, Or.inr ⟨c, hex⟩⟩
+            rw [hk]
+            refine realpath_last_plain dest fs p last h1 h2 (fun t ht => ?_)
+            rw [nodeAt_link_iff, hex] at ht
+            cases ht
+          · cases h
+          · rename_i t hex
+            have hnode := nodeAt_link_iff.mpr hex
+            have hrec : kopen dest fs n (if t.startsWith "/" then [] else p) (split t) = Except.ok q := by
+              split at h
+              · rename_i ht; rw [if_pos ht]; exact h
+              · rename_i ht; rw [if_neg ht]; exact h
+            obtain ⟨⟨m, hm⟩, hq⟩ := ih _ _ _ hrec
+            refine ⟨⟨k + (m + 1), ?_⟩, hq⟩
+            rw [hk, realpath_last_link dest fs p last t m h1 h2 hnode]
+            exact hm
+
+/-! ### the final write of a member -/
+
+/-- what the filter vetted, seen from the directory `p` the kernel reached for the parent: whatever `realpath` yields from
+  `p` over the last component is the vetted target -/
+def Vetted (dest : Path) (fs : FS) (p : Path) (rest : List String) (target : Path) : Prop :=
+  ∀ j t, realpath dest fs j p rest = some t → t = target
+
+theorem strictInside_of_ne {dest p : Path} (h : isPrefix dest p = true) (hne : dest ≠ p) : strictInside dest p = true := by
+  have hl := isPrefix_length h
+  have : dest.length ≠ p.length := by
+    intro e
+    obtain ⟨x, rfl⟩ := isPrefix_iff.mp h
+    simp only [List.length_append] at e
+    have : x = [] := List.eq_nil_of_length_eq_zero (by omega)
+    exact hne (by simp [this])
+  simp [strictInside, h]; omega
+
+theorem strictInside_isPrefix {dest p : Path} (h : strictInside dest p = true) : isPrefix dest p = true := by
+  simp only [strictInside, Bool.and_eq_true] at h; exact h.1
+
+theorem strictInside_ne_nil {dest p : Path} (h : strictInside dest p = true) : rel dest p ≠ [] := by
+  simp only [strictInside, Bool.and_eq_true, decide_eq_true_eq] at h
+  intro e
+  have := congrArg List.length e
+  simp [rel] at this
+  omega
+
+theorem strictInside_append {dest p : Path} (h : strictInside dest p = true) (x : Path) : strictInside dest (p ++ x) = true := by
+  simp only [strictInside, Bool.and_eq_true, decide_eq_true_eq] at h ⊢
+  obtain ⟨y, rfl⟩ := isPrefix_iff.mp h.1
+  refine ⟨isPrefix_iff.mpr ⟨y ++ x, by simp⟩, ?_⟩
+  simp only [List.length_append] at h ⊢
+  omega
+
+/-- FINAL (a): nothing stands at `p/last`: the entry is created there, and that is the vetted target -/
+theorem final_none_inside {dest : Path} {fs : FS} {p : Path} {last : String} {target : Path}
+    (hv : Vetted dest fs p [last] target) (ht : isPrefix dest target = true)
+    (h1 : (last == "" || last == ".") = false) (h2 : (last == "..") = false)
+    (hex : existsAbs dest fs (p ++ [last]) = none) : strictInside dest (p ++ [last]) = true := by
+  have hr := realpath_last_plain dest fs p last h1 h2 (by rw [nodeAt_of_existsAbs_none hex]; simp)
+  have := hv _ _ hr
+  rw [← this] at ht
+  refine strictInside_of_ne ht (fun e => ?_)
+  rw [← e, existsAbs_dest] at hex
+  cases hex
+
+/-- FINAL (b): a file is opened for writing through a link at `p/last`: it lands on the vetted target -/
+theorem final_kopen_inside {dest : Path} {fs : FS} {p : Path} {last : String} {target q : Path} {n : Nat}
+    (hv : Vetted dest fs p [last] target) (ht : isPrefix dest target = true)
+    (hk : kopen dest fs n p [last] = Except.ok q) : strictInside dest q = true := by
+  obtain ⟨⟨m, hm⟩, hq⟩ := kopen_realpath dest fs n p [last] q hk
+  have := hv _ _ hm
+  rw [← this] at ht
+  refine strictInside_of_ne ht (fun e => ?_)
+  rw [← e, existsAbs_dest] at hq
+  rcases hq with hq | ⟨c, hq⟩ <;> cases hq
+
+/-! ### making the parent directories -/
+
+/-- the invariant of `os.makedirs` walking the literal parent path: `fs0` is the tree the filter looked at -/
+structure WalkInv (dest : Path) (fs0 : FS) (target : Path) (last : String) (w : Walk) (todo : List String) : Prop where
+  links : ∀ p t, nodeAt dest w.fs p = some (Node.link t) ↔ nodeAt dest fs0 p = some (Node.link t)
+  sub : ∀ q, lookup w.fs q = none → lookup fs0 q = none
+  knownCur : known dest w.cur
+  fresh : w.creating = true → strictInside dest w.cur = true ∧ lookup fs0 (rel dest w.cur) = none
+  vetted : Vetted dest fs0 w.cur (todo ++ [last]) target
+
+theorem rel_append_of_prefix {dest p : Path} (h : isPrefix dest p = true) (x : Path) : rel dest (p ++ x) = rel dest p ++ x := by
+  obtain ⟨y, rfl⟩ := isPrefix_iff.mp h
+  simp [rel]
+
+theorem eq_of_rel_eq {dest p q : Path} (hp : isPrefix dest p = true) (hq : isPrefix dest q = true) (h : rel dest p = rel dest q) : p = q := by
+  obtain ⟨x, rfl⟩ := isPrefix_iff.mp hp
+  obtain ⟨y, rfl⟩ := isPrefix_iff.mp hq
+  simp [rel] at h
+  rw [h]
+
+/-- below a path that does not exist, and below a path that is neither under dest nor an ancestor of it, `realpath` meets
+  no symbolic link -/
+theorem no_link_below {dest : Path} {fs0 : FS} (hc : Closed fs0) {lit : Path}
+    (h : (isPrefix dest lit = true ∧ lookup fs0 (rel dest lit) = none) ∨ (isPrefix dest lit = false ∧ isPrefix lit dest = false)) :
+    ∀ x, x ≠ [] → ∀ l, nodeAt dest fs0 (lit ++ x) ≠ some (Node.link l) := by
+  intro x _ l hl
+  unfold nodeAt at hl
+  rcases h with ⟨hp, hn⟩ | ⟨hp, ha⟩
+  · rw [if_pos (isPrefix_trans hp (isPrefix_append _ _))] at hl
+    have : List.drop dest.length (lit ++ x) = rel dest lit ++ x := rel_append_of_prefix hp x
+    rw [this, hc _ x hn] at hl
+    cases hl
+  · split at hl
+    · rename_i hpx
+      rcases isPrefix_comparable hpx (isPrefix_append lit x) with h' | h'
+      · rw [h'] at hp; cases hp
+      · rw [h'] at ha; cases ha
+    · cases hl
+
+theorem realpath_step_plain (dest : Path) (fs : FS) (cur : Path) (c : String) (rest : List String) (j : Nat)
+    (h1 : (c == "" || c == ".") = false) (h2 : (c == "..") = false)
+    (hn : ∀ t, nodeAt dest fs (cur ++ [c]) ≠ some (Node.link t)) :
+    realpath dest fs (j + 1) cur (c :: rest) = realpath dest fs j (cur ++ [c]) rest := by
+  rw [realpath.eq_3]
+  dsimp only
+  rw [if_neg (by simp [h1]), if_neg (by simp [h2])]
+  unfold nodeAt at hn
+  split
+  · rename_i t hnode; exact absurd hnode (hn t)
+  · rfl
+
+theorem nodeAt_setNode_dir {dest : Path} {fs : FS} {lit : Path} (hs : strictInside dest lit = true) (p : Path) (t : String) :
+    nodeAt dest (setNode fs (rel dest lit) Node.dir) p = some (Node.link t) ↔
+      (p ≠ lit ∧ nodeAt dest fs p = some (Node.link t)) := by
+  unfold nodeAt
+  split
+  · rename_i hp
+    by_cases e : p = lit
+    · subst e
+      have : List.drop dest.length p = rel dest p := rfl
+      rw [this, lookup_setNode_self _ _ _ (strictInside_ne_nil hs)]
+      simp
+    · have hne : List.drop dest.length p ≠ rel dest lit := fun h => e (eq_of_rel_eq hp (strictInside_isPrefix hs) h)
+      rw [lookup_setNode_ne _ _ _ _ hne]
+      simp [e]
+  · simp
+
+/-- one step of the walk keeps the invariant and never makes a directory outside dest -/
+theorem walkStep_inv {dest : Path} {fs0 : FS} (hc : Closed fs0) {target : Path} (ht : isPrefix dest target = true) {last : String}
+    (hl2 : (last == "..") = false)
+    {w : Walk} {c : String} {todo : List String} (hdd : ".." ∉ c :: todo)
+    (inv : WalkInv dest fs0 target last w (c :: todo)) :
+    (∀ q, walkStep dest w c ≠ Except.error (WalkErr.escaped q)) ∧
+    (∀ w', walkStep dest w c = Except.ok w' → WalkInv dest fs0 target last w' todo) := by
+  have hcne : c ≠ ".." := fun e => hdd (by simp [e])
+  have h2 : (c == "..") = false := by simpa using hcne
+  have hddrest : ".." ∉ todo ++ [last] := by
+    intro hm
+    rcases List.mem_append.mp hm with hm | hm
+    · exact hdd (List.mem_cons_of_mem _ hm)
+    · simp at hm; rw [← hm] at hl2; simp at hl2
+  unfold walkStep
+  split
+  · -- "" or "."
+    rename_i htriv
+    refine ⟨fun q h => (by cases h), fun w' h => ?_⟩
+    cases h
+    refine { inv with vetted := fun j t hj => inv.vetted (j + 1) t ?_ }
+    rw [List.cons_append, realpath.eq_3]; dsimp only; rw [if_pos htriv]; exact hj
+  · rename_i htriv
+    have h1 : (c == "" || c == ".") = false := by simpa using htriv
+    rw [if_neg (by simp [h2])]
+    dsimp only
+    -- the vetted target seen from cur ++ [c], whenever no link stands there in fs0
+    have vet_push : (∀ t, nodeAt dest fs0 (w.cur ++ [c]) ≠ some (Node.link t)) →
+        Vetted dest fs0 (w.cur ++ [c]) (todo ++ [last]) target := by
+      intro hn j t hj
+      refine inv.vetted (j + 1) t ?_
+      rw [List.cons_append, realpath_step_plain dest fs0 w.cur c _ j h1 h2 hn]; exact hj
+    split
+    · -- nothing there: mkdir
+      rename_i hex
+      have hnode0 : ∀ t, nodeAt dest fs0 (w.cur ++ [c]) ≠ some (Node.link t) := by
+        intro t h
+        have := (inv.links _ t).mpr h
+        rw [nodeAt_of_existsAbs_none hex] at this
+        cases this
+      -- the lexical continuation below the missing component
+      have hbelow : (isPrefix dest (w.cur ++ [c]) = true ∧ lookup fs0 (rel dest (w.cur ++ [c])) = none) ∨
+          (isPrefix dest (w.cur ++ [c]) = false ∧ isPrefix (w.cur ++ [c]) dest = false) := by
+        unfold existsAbs at hex
+        by_cases hp : isPrefix dest (w.cur ++ [c]) = true
+        · rw [if_pos hp] at hex
+          exact Or.inl ⟨hp, inv.sub _ hex⟩
+        · rw [if_neg hp] at hex
+          refine Or.inr ⟨by simpa using hp, ?_⟩
+          split at hex
+          · cases hex
+          · rename_i ha; simpa using ha
+      have hlex := realpath_lexical_some dest fs0 (todo ++ [last]) (w.cur ++ [c]) (no_link_below hc hbelow) hddrest
+      have htgt := vet_push hnode0 _ _ hlex
+      have hstrict : strictInside dest (w.cur ++ [c]) = true := by
+        rw [← htgt] at ht
+        rcases isPrefix_comparable ht (isPrefix_append (w.cur ++ [c]) _) with h' | h'
+        · refine strictInside_of_ne h' (fun e => ?_)
+          rw [← e, existsAbs_dest] at hex; cases hex
+        · rcases hbelow with ⟨hp, _⟩ | ⟨_, ha⟩
+          · have e := isPrefix_antisymm hp h'
+            rw [← e, existsAbs_dest] at hex; cases hex
+          · rw [h'] at ha; cases ha
+      rw [if_pos hstrict]
+      refine ⟨fun q h => (by cases h), fun w' h => ?_⟩
+      cases h
+      have hp := strictInside_isPrefix hstrict
+      have hnone0 : lookup fs0 (rel dest (w.cur ++ [c])) = none := by
+        rcases hbelow with ⟨_, hn⟩ | ⟨hp', _⟩
+        · exact hn
+        · rw [hp] at hp'; cases hp'
+      refine ⟨fun p t => ?_, fun q hq => ?_, Or.inl hp, fun _ => ⟨hstrict, hnone0⟩, vet_push hnode0⟩
+      · rw [nodeAt_setNode_dir hstrict, inv.links]
+        constructor
+        · exact fun h => h.2
+        · intro h
+          refine ⟨fun e => ?_, h⟩
+          rw [e] at h; exact hnode0 t h
+      · dsimp only at hq
+        by_cases e : q = rel dest (w.cur ++ [c])
+        · rw [e, lookup_setNode_self _ _ _ (strictInside_ne_nil hstrict)] at hq; cases hq
+        · rw [lookup_setNode_ne _ _ _ _ e] at hq; exact inv.sub q hq
+    · -- a directory: enter
+      rename_i hex
+      refine ⟨fun q h => (by cases h), fun w' h => ?_⟩
+      cases h
+      have hnode0 : ∀ t, nodeAt dest fs0 (w.cur ++ [c]) ≠ some (Node.link t) := by
+        intro t h
+        have := nodeAt_link_iff.mp ((inv.links _ t).mpr h)
+        rw [hex] at this; cases this
+      refine ⟨inv.links, inv.sub, existsAbs_known hex, fun hcr => ?_, vet_push hnode0⟩
+      obtain ⟨hs, hn⟩ := inv.fresh hcr
+      refine ⟨strictInside_append hs _, ?_⟩
+      rw [rel_append_of_prefix (strictInside_isPrefix hs)]
+      exact hc _ _ hn
+    · -- a file in the way
+      exact ⟨fun q h => (by cases h), fun w' h => by cases h⟩
+    · -- a symbolic link: the kernel follows it
+      rename_i tl hex
+      split
+      · rename_i p hkp
+        split
+        · refine ⟨fun q h => (by cases h), fun w' h => ?_⟩
+          cases h
+          have hlink0 : nodeAt dest fs0 (w.cur ++ [c]) = some (Node.link tl) := (inv.links _ tl).mp (nodeAt_link_iff.mpr hex)
+          have hcongr := realpath_congr dest w.fs fs0 inv.links
+          obtain ⟨k, hk⟩ := realpath_after_kresolve dest w.fs FUEL w.cur [c] p hkp
+          refine ⟨inv.links, inv.sub, kresolve_known dest w.fs FUEL w.cur [c] p inv.knownCur hkp, fun hcr => ?_, fun j t hj => ?_⟩
+          · -- while creating, nothing exists below cur in fs0: no link can stand there
+            exfalso
+            obtain ⟨hs, hn⟩ := inv.fresh hcr
+            unfold nodeAt at hlink0
+            rw [if_pos (strictInside_isPrefix (strictInside_append hs _))] at hlink0
+            have : List.drop dest.length (w.cur ++ [c]) = rel dest w.cur ++ [c] := rel_append_of_prefix (strictInside_isPrefix hs) _
+            rw [this, hc _ _ hn] at hlink0
+            cases hlink0
+          · refine inv.vetted (k + j) t ?_
+            have := hk j (todo ++ [last])
+            rw [hcongr, hcongr] at this
+            rw [show c :: todo ++ [last] = [c] ++ (todo ++ [last]) by simp, this]
+            exact hj
+        · exact ⟨fun q h => (by cases h), fun w' h => by cases h⟩
+      · exact ⟨fun q h => (by cases h), fun w' h => by cases h⟩
+
+/-- the whole walk: no directory is ever made outside dest, and the invariant holds where it ends -/
+theorem walk_inv {dest : Path} {fs0 : FS} (hc : Closed fs0) {target : Path} (ht : isPrefix dest target = true) {last : String}
+    (hl2 : (last == "..") = false) : ∀ (todo : List String) (w : Walk), ".." ∉ todo →
+    WalkInv dest fs0 target last w todo →
+    (∀ q, todo.foldlM (walkStep dest) w ≠ Except.error (WalkErr.escaped q)) ∧
+    (∀ w', todo.foldlM (walkStep dest) w = Except.ok w' → WalkInv dest fs0 target last w' []) := by
+  intro todo
+  induction todo with
+  | nil =>
+    intro w _ inv
+    refine ⟨fun q h => (by cases h), fun w' h => ?_⟩
+    cases h; exact inv
+  | cons c todo ih =>
+    intro w hdd inv
+    obtain ⟨hesc, hok⟩ := walkStep_inv hc ht hl2 hdd inv
+    rw [List.foldlM_cons]
+    cases hs : walkStep dest w c with
+    | error e =>
+      refine ⟨fun q h => ?_, fun w' h => by cases h⟩
+      cases e with
+      | os fs' why => cases h
+      | escaped p => exact hesc p hs
+    | ok w1 =>
+      exact ih w1 (fun hm => hdd (List.mem_cons_of_mem _ hm)) (hok w1 hs)
+
+/-! ### placing a vetted member -/
+
+theorem writeAt_inside {dest : Path} {fs : FS} {q : Path} {n : Node} (h : strictInside dest q = true) :
+    writeAt dest fs q n = Verdict.ok (setNode fs (rel dest q) n) := by
+  simp [writeAt, h]
+
+theorem existsAbs_of_isDirAt {dest : Path} {fs : FS} {p : Path} (h : isDirAt dest fs p = true) : existsAbs dest fs p = some Node.dir := by
+  unfold isDirAt at h
+  unfold existsAbs
+  split
+  · rename_i hp; rw [if_pos hp] at h; simpa using h
+  · rename_i hp; rw [if_neg hp] at h; simp [h]
+
+theorem vetted_congr {dest : Path} {fs fs0 : FS}
+    (hl : ∀ p t, nodeAt dest fs p = some (Node.link t) ↔ nodeAt dest fs0 p = some (Node.link t))
+    {p : Path} {rest : List String} {target : Path} (hv : Vetted dest fs0 p rest target) : Vetted dest fs p rest target := by
+  intro j t hj
+  rw [realpath_congr dest fs fs0 hl] at hj
+  exact hv j t hj
+
+/-- the entry of a vetted member is created strictly below dest: given where the walk of the parent ended -/
+theorem place_final {dest : Path} (fs : FS) (earlier : List Member) (m : Member) (cur : Path) (last : String) (target : Path)
+    (hv : Vetted dest fs cur [last] target) (ht : isPrefix dest target = true) (hl2 : (last == "..") = false)
+    (hdir : isDirAt dest fs cur = true) :
+    ∀ q, placeFinal dest fs earlier m cur last ≠ Verdict.escaped q := by
+  intro q
+  unfold placeFinal
+  dsimp only
+  by_cases h1 : (last == "" || last == ".") = true
+  · -- the name ends with '/' or '/.': the entry is the parent itself
+    simp only [h1, if_true, Bool.true_or]
+    rw [existsAbs_of_isDirAt hdir]
+    cases m.kind <;> simp
+  · have h1' : (last == "" || last == ".") = false := by simpa using h1
+    simp only [h1', hl2, Bool.false_eq_true, if_false, Bool.or_false]
+    have hnone : existsAbs dest fs (cur ++ [last]) = none → strictInside dest (cur ++ [last]) = true :=
+      final_none_inside hv ht h1' hl2
+    cases m.kind with
+    | dir =>
+      dsimp only
+      cases hex : existsAbs dest fs (cur ++ [last]) with
+      | none => dsimp only; rw [writeAt_inside (hnone hex)]; simp
+      | some nd => simp
+    | file =>
+      dsimp only
+      cases hex : existsAbs dest fs (cur ++ [last]) with
+      | none => dsimp only; rw [writeAt_inside (hnone hex)]; simp
+      | some nd =>
+        cases nd with
+        | file c => dsimp only; rw [writeAt_inside (nondir_strictInside hex (by simp))]; simp
+        | dir => simp
+        | link t =>
+          dsimp only
+          cases hk : kopen dest fs FUEL cur [last] with
+          | error why => simp
+          | ok q' => dsimp only; rw [writeAt_inside (final_kopen_inside hv ht hk)]; simp
+    | sym =>
+      dsimp only
+      cases hex : existsAbs dest fs (cur ++ [last]) with
+      | none => dsimp only; rw [writeAt_inside (hnone hex)]; simp
+      | some nd =>
+        cases nd with
+        | file c => dsimp only; rw [writeAt_inside (nondir_strictInside hex (by simp))]; simp
+        | dir => simp
+        | link t => dsimp only; rw [writeAt_inside (nondir_strictInside hex (by simp))]; simp
+    | hard =>
+      dsimp only
+      cases kresolve dest fs FUEL dest (split m.linkname) with
+      | none => dsimp only; split <;> simp
+      | some t =>
+        dsimp only
+        split
+        · rename_i c _ hex
+          rw [writeAt_inside (hnone hex)]; simp
+        · simp
+    | special => simp
+
+theorem placeMember_not_escaped {dest : Path} {fs : FS} (hc : Closed fs) (earlier : List Member) (m : Member)
+    (comps : List String) (target : Path) (hr : realpath dest fs FUEL dest comps = some target)
+    (ht : isPrefix dest target = true) (hdd : ".." ∉ comps) :
+    ∀ q, placeMember dest fs earlier m comps ≠ Verdict.escaped q := by
+  intro q
+  -- split the name into the parent components and the last one
+  have hsplit : ∃ dl last, comps.dropLast = dl ∧ comps.getLast?.getD "" = last ∧ ".." ∉ dl ∧ (last == "..") = false ∧
+      Vetted dest fs dest (dl ++ [last]) target := by
+    by_cases hne : comps = []
+    · subst hne
+      refine ⟨[], "", rfl, rfl, by simp, by decide, fun j t hj => ?_⟩
+      -- realpath over [""] is realpath over []
+      have : realpath dest fs (j - 1) dest [] = some t := by
+        cases j with
+        | zero => simp [realpath] at hj
+        | succ j => simp only [List.nil_append] at hj; rw [realpath.eq_3] at hj; simpa using hj
+      exact realpath_det dest fs this hr
+    · have hcs := dropLast_getLast hne
+      refine ⟨comps.dropLast, comps.getLast?.getD "", rfl, rfl, fun hm => hdd ?_, ?_, fun j t hj => ?_⟩
+      · rw [hcs]; exact List.mem_append_left _ hm
+      · have : comps.getLast?.getD "" ≠ ".." := fun e => hdd (by rw [hcs, e]; simp)
+        simpa using this
+      · rw [← hcs] at hj; exact realpath_det dest fs hj hr
+  obtain ⟨dl, last, hdl, hlast, hdd1, hl2, hv0⟩ := hsplit
+  unfold placeMember
+  rw [hdl, hlast]
+  have hinit : WalkInv dest fs target last { fs := fs, cur := dest, creating := false } dl :=
+    ⟨fun _ _ => Iff.rfl, fun _ h => h, known_self dest, (fun h => by cases h), hv0⟩
+  -- where the walk of the parent ends, and the invariant there
+  have hwalk : ∀ w, walkUpper dest fs dl = Except.ok w → WalkInv dest fs target last w [] := by
+    intro w hw
+    unfold walkUpper at hw
+    split at hw
+    · rename_i p hkp
+      cases hw
+      obtain ⟨k, hk⟩ := realpath_after_kresolve dest fs FUEL dest dl p hkp
+      refine ⟨fun _ _ => Iff.rfl, fun _ h => h, kresolve_known dest fs FUEL dest dl p (known_self dest) hkp, (fun h => by cases h), ?_⟩
+      intro j t hj
+      refine hv0 (k + j) t ?_
+      rw [hk]; exact hj
+    · exact (walk_inv hc ht hl2 dl _ hdd1 hinit).2 w hw
+  have hnoesc : ∀ p', walkUpper dest fs dl ≠ Except.error (WalkErr.escaped p') := by
+    intro p' hw
+    unfold walkUpper at hw
+    split at hw
+    · cases hw
+    · exact (walk_inv hc ht hl2 dl _ hdd1 hinit).1 p' hw
+  cases hwu : walkUpper dest fs dl with
+  | error e =>
+    cases e with
+    | os fs' why => simp
+    | escaped p' => exact absurd hwu (hnoesc p')
+  | ok w =>
+    dsimp only
+    have inv := hwalk w hwu
+    by_cases hdir : isDirAt dest w.fs w.cur = true
+    · simp only [hdir, Bool.not_true, Bool.false_eq_true, if_false]
+      exact place_final w.fs earlier m w.cur last target (vetted_congr inv.links (by simpa using inv.vetted)) ht hl2 hdir q
+    · simp [hdir]
+
+/-- a member is never placed outside dest: the filter plus the `..` guard make `escaped` unreachable -/
+theorem extractMember_not_escaped {dest : Path} {fs : FS} (hc : Closed fs) (earlier : List Member) (m : Member) :
+    ∀ q, extractMember dest fs earlier m ≠ Verdict.escaped q := by
+  intro q
+  unfold extractMember
+  dsimp only
+  split
+  · simp
+  · rename_i hg
+    have hdd : ".." ∉ split (stripSlashes m.name) := by
+      intro hm
+      apply hg
+      simp [hm]
+    split
+    · simp
+    · rename_i target hr
+      split
+      · simp
+      · rename_i hp
+        split
+        · simp
+        · split
+          · simp
+          · simp
+          · exact placeMember_not_escaped hc earlier m _ target hr (by simpa using hp) hdd q
+
+/-! ### the tree stays a tree -/
+
+theorem closed_setNode_existing {fs : FS} (hc : Closed fs) {k : Path} (hk : lookup fs k ≠ none) (n : Node) :
+    Closed (setNode fs k n) := by
+  intro p x hp
+  have hpk : p ≠ k := by
+    intro e; subst e
+    by_cases he : p = []
+    · subst he; rw [lookup_nil] at hp; cases hp
+    · rw [lookup_setNode_self _ _ _ he] at hp; cases hp
+  rw [lookup_setNode_ne _ _ _ _ hpk] at hp
+  by_cases e : p ++ x = k
+  · exact absurd (e ▸ hc p x hp) hk
+  · rw [lookup_setNode_ne _ _ _ _ e]; exact hc p x hp
+
+theorem closed_setNode_new {fs : FS} (hc : Closed fs) {pr : Path} {l : String} (hpar : lookup fs pr ≠ none) (n : Node) :
+    Closed (setNode fs (pr ++ [l]) n) := by
+  intro p x hp
+  have hpk : p ≠ pr ++ [l] := by
+    intro e; subst e
+    rw [lookup_setNode_self _ _ _ (by simp)] at hp; cases hp
+  rw [lookup_setNode_ne _ _ _ _ hpk] at hp
+  by_cases e : p ++ x = pr ++ [l]
+  · exfalso
+    -- p is a proper prefix of pr ++ [l], hence a prefix of pr: pr would not exist
+    have hx : x ≠ [] := by intro hx; apply hpk; simpa [hx] using e
+    have : p ++ x.dropLast = pr := by
+      have h1 : (p ++ x).dropLast = (pr ++ [l]).dropLast := by rw [e]
+      rw [List.dropLast_append_of_ne_nil hx, List.dropLast_concat] at h1
+      exact h1
+    exact hpar (this ▸ hc p x.dropLast hp)
+  · rw [lookup_setNode_ne _ _ _ _ e]; exact hc p x hp
+
+theorem lookup_of_isDirAt {dest : Path} {fs : FS} {cur : Path} (hd : isDirAt dest fs cur = true) (hp : isPrefix dest cur = true) :
+    lookup fs (rel dest cur) = some Node.dir := by
+  unfold isDirAt at hd
+  rw [if_pos hp] at hd
+  simpa using hd
+
+theorem prefix_of_strict_append {dest cur : Path} {l : String} (h : strictInside dest (cur ++ [l]) = true) : isPrefix dest cur = true := by
+  have hp := strictInside_isPrefix h
+  have hne : dest ≠ cur ++ [l] := by
+    intro e
+    simp only [strictInside, Bool.and_eq_true, decide_eq_true_eq] at h
+    rw [← e] at h; omega
+  have := isPrefix_dropLast hp hne
+  rwa [List.dropLast_concat] at this
+
+/-- writing an entry at `cur/l`, `cur` being an existing directory, keeps the tree closed -/
+theorem closed_write {dest : Path} {fs : FS} (hc : Closed fs) {cur : Path} {l : String} (hd : isDirAt dest fs cur = true)
+    (hs : strictInside dest (cur ++ [l]) = true) (n : Node) : Closed (setNode fs (rel dest (cur ++ [l])) n) := by
+  have hp := prefix_of_strict_append hs
+  rw [rel_append_of_prefix hp]
+  exact closed_setNode_new hc (by rw [lookup_of_isDirAt hd hp]; simp) n
+
+theorem writeAt_closed {dest : Path} {fs : FS} (hc : Closed fs) {cur : Path} {l : String} (hd : isDirAt dest fs cur = true) (n : Node) (fs' : FS)
+    (h : writeAt dest fs (cur ++ [l]) n = Verdict.ok fs') : Closed fs' := by
+  unfold writeAt at h
+  split at h
+  · rename_i hs; cases h; exact closed_write hc hd hs n
+  · cases h
+
+/-- where a file opened for writing lands: in an existing directory -/
+theorem kopen_parent (dest : Path) (fs : FS) : ∀ (n : Nat) (cur : Path) (cs : List String) (q : Path),
+    kopen dest fs n cur cs = Except.ok q → ∃ p l, q = p ++ [l] ∧ isDirAt dest fs p = true := by
+  intro n
+  induction n with
+  | zero => intro cur cs q h; simp [kopen] at h
+  | succ n ih =>
+    intro cur cs q h
+    rw [kopen.eq_2] at h
+    dsimp only at h
+    split at h
+    · cases h
+    · rename_i p hp
+      split at h
+      · cases h
+      · rename_i hdir
+        split at h
+        · cases h
+        · split at h
+          · cases h; exact ⟨p, _, rfl, by simpa using hdir⟩
+          · cases h; exact ⟨p, _, rfl, by simpa using hdir⟩
+          · cases h
+          · split at h <;> exact ih _ _ _ h
+
+theorem placeFinal_closed {dest : Path} {fs : FS} (hc : Closed fs) (earlier : List Member) (m : Member) (cur : Path) (last : String)
+    (hdir : isDirAt dest fs cur = true) (fs' : FS) (h : placeFinal dest fs earlier m cur last = Verdict.ok fs') : Closed fs' := by
+  unfold placeFinal at h
+  dsimp only at h
+  by_cases h1 : (last == "" || last == ".") = true
+  · simp only [h1, if_true, Bool.true_or] at h
+    rw [existsAbs_of_isDirAt hdir] at h
+    cases hk : m.kind <;> rw [hk] at h <;> simp at h
+    rw [← h]; exact hc
+  · have h1' : (last == "" || last == ".") = false := by simpa using h1
+    by_cases h2 : (last == "..") = true
+    · simp only [h1', h2, Bool.false_eq_true, if_false, if_true, Bool.or_true] at h
+      cases hk : m.kind <;> rw [hk] at h <;> dsimp only at h
+      · cases h
+      · split at h
+        · -- a directory entry named `x/..`: created at the parent of cur when nothing is there — never in a closed tree
+          unfold writeAt at h
+          split at h
+          · rename_i hex hs
+            cases h
+            -- cur.dropLast is an ancestor-or-self of an existing directory below dest: it exists
+            exfalso
+            have hp := strictInside_isPrefix hs
+            unfold existsAbs at hex
+            rw [if_pos hp] at hex
+            have hcur : isPrefix dest cur = true := isPrefix_trans hp (by
+              rcases List.eq_nil_or_concat cur with e | ⟨l', c', e⟩
+              · rw [e]; exact isPrefix_refl _
+              · rw [e, List.concat_eq_append, List.dropLast_concat]; exact isPrefix_append _ _)
+            have hl := lookup_of_isDirAt hdir hcur
+            rcases List.eq_nil_or_concat cur with e | ⟨l', c', e⟩
+            · rw [e] at hs; simp [strictInside, isPrefix] at hs
+            · rw [e, List.concat_eq_append, List.dropLast_concat] at hex hp
+              rw [e, List.concat_eq_append, rel_append_of_prefix hp, hc _ [c'] hex] at hl
+              cases hl
+          · cases h
+        · cases h; exact hc
+      · cases h
+      · cases h
+      · cases h
+    · have h2' : (last == "..") = false := by simpa using h2
+      simp only [h1', h2', Bool.false_eq_true, if_false, Bool.or_false] at h
+      cases hk : m.kind <;> rw [hk] at h <;> dsimp only at h
+      · -- file
+        split at h
+        · cases h
+        · rename_i t _
+          split at h
+          · cases h
+          · rename_i q hko
+            obtain ⟨p', l', rfl, hd'⟩ := kopen_parent dest fs FUEL cur [last] q hko
+            exact writeAt_closed hc hd' _ fs' h
+        · exact writeAt_closed hc hdir _ fs' h
+      · -- dir
+        split at h
+        · exact writeAt_closed hc hdir _ fs' h
+        · cases h; exact hc
+      · -- sym
+        split at h
+        · cases h
+        · exact writeAt_closed hc hdir _ fs' h
+      · -- hard
+        split at h
+        · split at h
+          · exact writeAt_closed hc hdir _ fs' h
+          · cases h
+        · split at h <;> cases h
+      · cases h
+
+/-- making the parent directories keeps the tree closed and ends in an existing directory -/
+theorem walkStep_closed {dest : Path} {w : Walk} (hc : Closed w.fs) (hd : isDirAt dest w.fs w.cur = true) {c : String} (hcd : c ≠ "..")
+    (w' : Walk) (h : walkStep dest w c = Except.ok w') : Closed w'.fs ∧ isDirAt dest w'.fs w'.cur = true := by
+  unfold walkStep at h
+  split at h
+  · cases h; exact ⟨hc, hd⟩
+  · rw [if_neg (by simpa using hcd)] at h
+    dsimp only at h
+    split at h
+    · split at h
+      · rename_i hs
+        cases h
+        refine ⟨closed_write hc hd hs _, ?_⟩
+        unfold isDirAt
+        rw [if_pos (strictInside_isPrefix hs), lookup_setNode_self _ _ _ (strictInside_ne_nil hs)]
+        simp
+      · cases h
+    · rename_i hex
+      cases h
+      refine ⟨hc, ?_⟩
+      unfold existsAbs at hex
+      unfold isDirAt
+      split
+      · rename_i hp; rw [if_pos hp] at hex; simp [hex]
+      · rename_i hp; rw [if_neg hp] at hex
+        split at hex
+        · assumption
+        · cases hex
+    · cases h
+    · split at h
+      · split at h
+        · rename_i hdp; cases h; exact ⟨hc, hdp⟩
+        · cases h
+      · cases h
+
+theorem walk_closed {dest : Path} : ∀ (todo : List String) (w : Walk), ".." ∉ todo → Closed w.fs → isDirAt dest w.fs w.cur = true →
+    ∀ w', todo.foldlM (walkStep dest) w = Except.ok w' → Closed w'.fs ∧ isDirAt dest w'.fs w'.cur = true := by
+  intro todo
+  induction todo with
+  | nil => intro w _ hc hd w' h; cases h; exact ⟨hc, hd⟩
+  | cons c todo ih =>
+    intro w hdd hc hd w' h
+    rw [List.foldlM_cons] at h
+    cases hs : walkStep dest w c with
+    | error e => rw [hs] at h; cases h
+    | ok w1 =>
+      rw [hs] at h
+      obtain ⟨hc1, hd1⟩ := walkStep_closed hc hd (fun e => hdd (by simp [e])) w1 hs
+      exact ih w1 (fun hm => hdd (List.mem_cons_of_mem _ hm)) hc1 hd1 w' h
+
+theorem extractMember_closed {dest : Path} {fs : FS} (hc : Closed fs) (earlier : List Member) (m : Member) (fs' : FS)
+    (h : extractMember dest fs earlier m = Verdict.ok fs') : Closed fs' := by
+  unfold extractMember at h
+  dsimp only at h
+  split at h
+  · cases h
+  · rename_i hg
+    have hdd : ".." ∉ split (stripSlashes m.name) := by
+      intro hm; apply hg; simp [hm]
+    split at h
+    · cases h
+    · split at h
+      · cases h
+      · split at h
+        · cases h
+        · split at h
+          · cases h
+          · cases h
+          · unfold placeMember at h
+            have hdd1 : ".." ∉ (split (stripSlashes m.name)).dropLast := fun hm => hdd (List.dropLast_subset _ hm)
+            cases hwu : walkUpper dest fs (split (stripSlashes m.name)).dropLast with
+            | error e => rw [hwu] at h; cases e <;> cases h
+            | ok w =>
+              rw [hwu] at h
+              dsimp only at h
+              split at h
+              · cases h
+              · rename_i hdir
+                have hcw : Closed w.fs := by
+                  unfold walkUpper at hwu
+                  split at hwu
+                  · cases hwu; exact hc
+                  · exact (walk_closed _ _ hdd1 hc (by simp [isDirAt, isPrefix_refl, rel, lookup]) w hwu).1
+                exact placeFinal_closed hcw earlier m w.cur _ (by simpa using hdir) fs' h
+
+/-- the whole archive: starting from a closed tree, no member is ever placed outside dest -/
+theorem untarFrom_never_escapes {dest : Path} : ∀ (ms : List Member) (fs : FS) (earlier : List Member), Closed fs →
+    ∀ q, (untarFrom dest fs earlier ms).2 ≠ some (Stop.escaped q) := by
+  intro ms
+  induction ms with
+  | nil => intro fs earlier _ q; simp [untarFrom]
+  | cons m ms ih =>
+    intro fs earlier hc q
+    rw [untarFrom]
+    cases hv : extractMember dest fs earlier m with
+    | ok fs' => exact ih fs' _ (extractMember_closed hc earlier m fs' hv) q
+    | skipped fs' =>
+      -- the model never produces this verdict
+      exfalso
+      unfold extractMember at hv
+      dsimp only at hv
+      split at hv
+      · cases hv
+      · split at hv
+        · cases hv
+        · split at hv
+          · cases hv
+          · split at hv
+            · cases hv
+            · split at hv
+              · cases hv
+              · cases hv
+              · unfold placeMember at hv
+                split at hv
+                · cases hv
+                · cases hv
+                · split at hv
+                  · cases hv
+                  · unfold placeFinal writeAt at hv
+                    dsimp only at hv
+                    repeat' split at hv
+                    all_goals first | cases hv | skip
+    | filterError why => simp
+    | osError fs' why => simp
+    | unmodelled => simp
+    | escaped p => exact absurd hv (extractMember_not_escaped hc earlier m p)
+
+theorem closed_nil : Closed [] := by
+  intro p q h
+  unfold lookup at h ⊢
+  split at h
+  · cases h
+  · rename_i hp
+    have : (p ++ q).isEmpty = false := by cases p <;> simp_all
+    simp [this]
+
+/-- inversion of the guards at the top of `extractMember` -/
 theorem extract_ok_inv (dest : Path) (fs fs' : FS) (m : Member)
     (earlier : List Member) (h : extractMember dest fs earlier m = Verdict.ok fs') :
+    ".." ∉ split m.name ∧ ".." ∉ split (stripSlashes m.name) ∧
     ∃ target, realpath dest fs FUEL dest (split (stripSlashes m.name)) = some target ∧ isPrefix dest target = true ∧
       m.kind ≠ Kind.special ∧
       ((m.kind = Kind.sym ∨ m.kind = Kind.hard) →
@@ -36,30 +1348,32 @@ theorem extract_ok_inv (dest : Path) (fs fs' : FS) (m : Member)
         ∃ t, realpath dest fs FUEL dest
           ((if m.kind = Kind.sym then (split (stripSlashes m.name)).dropLast else []) ++ split m.linkname) = some t ∧
           isPrefix dest t = true) ∧
-      ∃ w, (match kresolve dest fs FUEL dest (split (stripSlashes m.name)).dropLast with
-            | some p => Except.ok { fs := fs, cur := p, creating := false }
-            | none => walkParent dest fs (split (stripSlashes m.name)).dropLast) = Except.ok w ∧
-          isPrefix dest w.cur = true := by
+      placeMember dest fs earlier m (split (stripSlashes m.name)) = Verdict.ok fs' := by
   unfold extractMember at h
   dsimp only at h
   split at h
   · cases h
-  · rename_i target ht
-    refine ⟨target, ht, ?_⟩
+  · rename_i hg
+    simp only [Bool.or_eq_true, List.contains_iff_mem, not_or] at hg
+    refine ⟨hg.1, hg.2, ?_⟩
     split at h
     · cases h
-    · rename_i hp
-      refine ⟨by simpa using hp, ?_⟩
+    · rename_i target ht
+      refine ⟨target, ht, ?_⟩
       split at h
       · cases h
-      · rename_i hs
-        refine ⟨by simpa using hs, ?_⟩
+      · rename_i hp
+        refine ⟨by simpa using hp, ?_⟩
         split at h
         · cases h
-        · cases h
-        · rename_i hlc
-          constructor
-          · intro hk
+        · rename_i hs
+          refine ⟨by simpa using hs, ?_⟩
+          split at h
+          · cases h
+          · cases h
+          · rename_i hlc
+            refine ⟨?_, h⟩
+            intro hk
             have hk' : (m.kind == Kind.sym || m.kind == Kind.hard) = true := by simpa using hk
             rw [if_pos hk'] at hlc
             split at hlc
@@ -74,40 +1388,5 @@ theorem extract_ok_inv (dest : Path) (fs fs' : FS) (m : Member)
                   refine ⟨t, ?_, hpt⟩
                   simpa using hrt
                 · cases hlc
-          · split at h
-            · cases h
-            · rename_i w hw
-              refine ⟨w, hw, ?_⟩
-              split at h
-              · cases h
-              · rename_i hpw
-                simpa using hpw
-
-theorem isPrefix_append (a b : Path) : isPrefix a (a ++ b) = true := by
-  simp [isPrefix]
-
-theorem isPrefix_length {a b : Path} (h : isPrefix a b = true) : a.length ≤ b.length := by
-  simp only [isPrefix, Bool.and_eq_true, decide_eq_true_eq] at h
-  exact h.1
-
-theorem kresolve_dotdots (dest : Path) (fs : FS) : ∀ (k fuel : Nat) (cur : Path), k < fuel →
-    ∃ p, kresolve dest fs fuel cur (List.replicate k "..") = some p ∧ p.length = cur.length - k := by
-  intro k
-  induction k with
-  | zero =>
-    intro fuel cur hf
-    obtain ⟨f, rfl⟩ : ∃ f, fuel = f + 1 := ⟨fuel - 1, by omega⟩
-    exact ⟨cur, by simp [kresolve], by simp⟩
-  | succ k ih =>
-    intro fuel cur hf
-    obtain ⟨f, rfl⟩ : ∃ f, fuel = f + 1 := ⟨fuel - 1, by omega⟩
-    obtain ⟨p, hp, hl⟩ := ih f cur.dropLast (by omega)
-    refine ⟨p, ?_, ?_⟩
-    · rw [List.replicate_succ, kresolve.eq_3]
-      have e1 : (".." == "" || ".." == ".") = false := by decide
-      have e2 : (".." == "..") = true := by decide
-      simp only [e1, e2, Bool.false_eq_true, if_false, if_true]
-      exact hp
-    · rw [hl, List.length_dropLast]; omega
 
 end Kapture.C18
